@@ -24,6 +24,7 @@ def body(ctx):
     returns(ctx, ex, prog, viol)
     registration(ctx, ex, prog, viol)
     listener_queues(ctx, prog)
+    close_keeps_listeners(ctx, prog)
     # a returned message of any size reaches the listener: reassembly over several body frames (the content obligations of C03 for returns)
     import c03
     c03.content_sequences(ctx, prog, ex, ctx.q(2, 3), VAL, ('Return',))
@@ -37,7 +38,7 @@ def confirm_sequences(ctx, ex, prog, K, viol):
     f = prog.method('ConnectionState', 'process')
     a, b = z3.BitVec('chan_a', 16), z3.BitVec('chan_b', 16)
     for conf in ('some', 'none'):
-        st, w = build_steady(prog, [('A', a, {'conf': conf, 'consumers': 0}), ('B', b, {'consumers': 0})])
+        st, w = build_steady(prog, [('A', a, {'conf': conf, 'consumers': 0}), ('B', b, {'consumers': 0})], sealed=sym('sealed0', z3.BoolSort()))   # also while the client's own close is in flight
         front = [(st, [])]
         for i in range(K):
             nxt = []
@@ -120,7 +121,7 @@ def blocked_sequences(ctx, ex, prog, K, viol):
     f = prog.method('ConnectionState', 'process')
     a = z3.BitVec('chan_a', 16)
     for blocked in ('some', 'none'):
-        st, w = build_steady(prog, [('A', a, {'consumers': 0})], blocked=blocked)
+        st, w = build_steady(prog, [('A', a, {'consumers': 0})], blocked=blocked, sealed=sym('sealed0', z3.BoolSort()))
         front = [(st, [])]
         for i in range(min(K, 3)):
             nxt = []
@@ -268,6 +269,7 @@ def registration(ctx, ex, prog, viol):
             m = ctx.decide(f"c13.register-ch0[{which}]", s.pc, z3.BoolVal(isinstance(rv, Panic) and rv.kind == 'panic'), group='channel 0 cannot take confirm/return handlers (guarded by an assertion the API cannot reach)')
             if m is not None:
                 viol.append(('register-ch0', which))
+    blocked_registration(ctx, prog, viol)
     # handle side: set_*_handler enqueues exactly one registration message, in FIFO order with later sends
     fh = {'SetPubConfirmHandler': prog.method('IoLoopHandle', 'set_pub_confirm_handler'), 'SetReturnHandler': prog.method('IoLoopHandle', 'set_return_handler')}
     f_nowait = prog.method('IoLoopHandle', 'call_nowait')
@@ -289,6 +291,136 @@ def registration(ctx, ex, prog, viol):
                 m = ctx.decide(f"c13.handle-register[{which}]", s2.pc, z3.BoolVal(bool(ok2)), group='the listen call enqueues its registration before returning, ahead of any later request of that channel (same FIFO)')
                 if m is not None:
                     viol.append(('handle-register', which))
+
+
+def blocked_registration(ctx, prog, viol):
+    """the connection-blocked listener: the wake-up for the registration queue installs the newest registration and disconnects
+    whatever listener was installed before (whether or not its receiver is still alive)"""
+    from mirsym.world import mio_summaries, mk_event, READABLE, PollModel
+    ex = io_executor(ctx, prog, extra=mio_summaries())
+    f = prog.method('IoLoop', 'handle_steady_event')
+    names = prog.types.fields('IoLoop')
+    c0n = prog.types.fields('Channel0Slot')
+    bad = []
+    for old in ('some', 'none'):
+        for nnew in (1, 2):
+            a = z3.BitVec('chan_a', 16)
+            st, w = build_steady(prog, [('A', a, {'consumers': 0})], blocked=old)
+            news = [Chan(f'new.blocked{i}', None, True) for i in range(nnew)]
+            for ch in news:
+                w.set_blocked.queue.append(SenderVal(ch))
+                ch.senders = 1
+            st.roots['news'] = news
+            st.pc.append(sym('conn_handle_alive', z3.BoolSort()))
+            io = Agg({names.index('inner'): w.inner.value, names.index('poll'): PollModel(), names.index('frame_buffer'): Unit(), names.index('connection_timeout'): mk_option()}, 'IoLoop', 'ioloop')
+            for (s, rv) in ex.run(st, f, [Ref(Cell(io, 'ioloop')), Ref(Cell(Unit(), 'stream')), Ref(w.state), mk_event(READABLE, 0xffff + 4)], bind={'S': 'VerifStream'}):
+                w1 = s.roots['w']
+                nw = s.roots['news']
+                ok = not isinstance(rv, Panic) and err_name(prog, rv) == 'Ok'
+                if ok:
+                    cur = w1.state.value.payloads[0].fields[0].fields[c0n.index('blocked_tx')]
+                    ok = cur.disc == 1 and cur.payloads[1].fields[0].chan is nw[-1] and all(c_.senders == 0 for c_ in nw[:-1]) and nw[-1].senders == 1 \
+                        and (w1.blocked is None or w1.blocked.senders == 0) and len(w1.set_blocked.queue) == 0
+                m = ctx.decide(f"c13.register-blocked[{old},{nnew}]", s.pc, z3.BoolVal(bool(ok)),
+                               group='registering a connection-blocked listener installs the newest registration and drops (disconnects) every earlier one')
+                if m is not None:
+                    bad.append((old, nnew, str(rv)[:80]))
+    if bad:
+        ctx.report('blocked-listener-registration', f"registration wake-up with (old listener, new registrations) = {bad[0][:2]}: the newest listener is not the installed one or an older one stays connected",
+                   {'cases': [str(b_) for b_ in bad]}, BLOCKED_REG_TEST, inject_into='src/io_loop/mod.rs', profiles=('dev',), hang_is_violation=True, panic_is_violation=True)
+
+
+BLOCKED_REG_TEST = r"""
+use super::*;
+use super::connection_state::ConnectionState;
+use amq_protocol::frame::AMQPFrame;
+use amq_protocol::protocol::{AMQPClass, connection};
+struct VS3;
+impl std::io::Read for VS3 { fn read(&mut self, _: &mut [u8]) -> std::io::Result<usize> { Err(std::io::Error::new(std::io::ErrorKind::WouldBlock, "wb")) } }
+impl std::io::Write for VS3 { fn write(&mut self, b: &[u8]) -> std::io::Result<usize> { Ok(b.len()) } fn flush(&mut self) -> std::io::Result<()> { Ok(()) } }
+impl mio::Evented for VS3 {
+    fn register(&self, _: &mio::Poll, _: mio::Token, _: mio::Ready, _: mio::PollOpt) -> std::io::Result<()> { Ok(()) }
+    fn reregister(&self, _: &mio::Poll, _: mio::Token, _: mio::Ready, _: mio::PollOpt) -> std::io::Result<()> { Ok(()) }
+    fn deregister(&self, _: &mio::Poll) -> std::io::Result<()> { Ok(()) }
+}
+impl crate::IoStream for VS3 {}
+#[test]
+fn verif_replay_c13_blocked_registration() {
+    let mut bad: Vec<String> = Vec::new();
+    let mut io = IoLoop::new(crate::ConnectionTuning::default()).unwrap();
+    let (ch0_slot, mut h0) = Channel0Slot::new(4);
+    let mut state = ConnectionState::Steady(ch0_slot);
+    let wake = |io: &mut IoLoop, state: &mut ConnectionState| io.handle_steady_event(&mut VS3, state, mio::Event::new(mio::Ready::readable(), SET_BLOCKED_TX)).is_ok();
+    let note = |io: &mut IoLoop, state: &mut ConnectionState| state.process(&mut io.inner, AMQPFrame::Method(0, AMQPClass::Connection(connection::AMQPMethod::Unblocked(connection::Unblocked {})))).is_ok();
+    let (tx1, rx1) = crossbeam_channel::unbounded();
+    h0.set_blocked_tx(tx1).unwrap();
+    if !wake(&mut io, &mut state) { bad.push("wake1-failed".into()); }
+    if !note(&mut io, &mut state) { bad.push("notice1-failed".into()); }
+    if rx1.try_recv().is_err() { bad.push("first-listener-got-nothing".into()); }
+    // a second listener is registered while the first one is still alive: it replaces the first
+    let (tx2, rx2) = crossbeam_channel::unbounded();
+    h0.set_blocked_tx(tx2).unwrap();
+    if !wake(&mut io, &mut state) { bad.push("wake2-failed".into()); }
+    if !note(&mut io, &mut state) { bad.push("notice2-failed".into()); }
+    if rx2.try_recv().is_err() { bad.push("second-listener-got-nothing".into()); }
+    match rx1.try_recv() { Err(crossbeam_channel::TryRecvError::Disconnected) => (), Ok(_) => bad.push("replaced-listener-still-receives".into()), Err(_) => bad.push("replaced-listener-not-disconnected".into()) }
+    std::mem::forget(h0);
+    if bad.is_empty() { println!("VERIF-REPLAY-OK"); } else { println!("VERIF-REPLAY-VIOLATION blocked-listener-registration {}", bad.join(";")); }
+}
+"""
+
+
+def close_keeps_listeners(ctx, prog):
+    """closing (or dropping) a channel does not detach its listeners ahead of the Channel.Close: what the broker sends between the
+    client's Close and its CloseOk (outstanding confirmations, returns) still reaches them"""
+    import c12
+    ex = io_executor(ctx, prog, extra=cell_summaries() + [(r'^BTreeMap::<String, AMQPValue>::new$', lambda e, s, f, a: [(s, Agg({}, 'FieldTable', 'EMPTY-TABLE'))])])
+    bad = []
+    for opname in ('Channel.close', 'Channel.close_impl'):
+        ops = [o for o in c12.OPS if o[0] == opname]
+        if not ops:
+            continue
+        name, recv, fn, args, cls, meth, fields, reply = ops[0]
+        try:
+            f = c12.find_fn(prog, recv, fn)
+        except Unsupported:
+            continue      # the private helper may have another name: the public close above is what counts
+        st = State()
+        cell, info = mk_channel(prog, st, replies=[Lazy('std::result::Result<ChannelMessage, errors::Error>', 'reply')])
+        b = c12.Builder(prog, st, info)
+        rcv = c12.receiver(prog, st, b, recv, info)
+        n = 0
+        for (s, rv) in ex.run(st, f, [rcv], bind={}):
+            n += 1
+            kinds = [x[0] for x in sent_frames(prog, s.roots['ch.info'])]
+            ok = not any(k in ('SetReturnHandler', 'SetPubConfirmHandler') for k in kinds)
+            m = ctx.decide(f"c13.close-keeps-listeners[{opname}]#{n}", s.pc, z3.BoolVal(ok), group='closing a channel hands the I/O thread no listener (de)registration: listeners stay attached until the channel is gone')
+            if m is not None:
+                bad.append((opname, kinds))
+    if bad:
+        from apireplay import API_PRELUDE
+        ctx.report('listeners-detached-by-close', f"{bad[0][0]} hands the I/O thread {bad[0][1]}", {'cases': [str(b_) for b_ in bad]}, API_PRELUDE + CLOSE_TEST,
+                   inject_into='src/io_loop/channel_handle.rs', profiles=('dev',), hang_is_violation=True)
+
+
+CLOSE_TEST = r"""
+#[test]
+fn verif_replay_c13_close_keeps_listeners() {
+    let mut bad: Vec<String> = Vec::new();
+    for how in ["close", "drop"].iter() {
+        let (ch, rx, tx) = mk_channel(3, 4096);
+        let _ret = ch.listen_for_returns().unwrap();
+        let _conf = ch.listen_for_publisher_confirms().unwrap();
+        let before = frames_of(&rx);
+        if before != "SetReturnHandler;SetPubConfirmHandler" { bad.push(format!("{}:registration={}", how, before)); }
+        tx.send(Ok(crate::io_loop::ChannelMessage::Method(AMQPClass::Channel(amq_protocol::protocol::channel::AMQPMethod::CloseOk(amq_protocol::protocol::channel::CloseOk {}))))).unwrap();
+        if *how == "close" { let _ = ch.close(); } else { drop(ch); }
+        let sent = frames_of(&rx);
+        if sent.contains("SetReturnHandler") || sent.contains("SetPubConfirmHandler") { bad.push(format!("{}:{}", how, sent.replace(' ', "_"))); }
+    }
+    if bad.is_empty() { println!("VERIF-REPLAY-OK"); } else { println!("VERIF-REPLAY-VIOLATION listeners-detached-by-close {}", bad.join(";")); }
+}
+"""
 
 
 def listener_queues(ctx, prog):
